@@ -62,12 +62,23 @@ pub fn frontier_add(b: i128, p: u8, q: u8, out: &mut Vec<i128>) {
             push_solutions(out, &rhs, &sa, &[0, 1]);
         }
     }
-    // alignment frontier of a
+    // alignment frontier of a: next to the overflow threshold and next to the wrap-around points
     if p < m {
-        let t = M / alpha::pow10((m - p) as u32);
+        let pk = alpha::pow10((m - p) as u32);
+        let t = M / pk;
         for v in [t - 1, t, t + 1, t + 2] {
             out.push(v);
             out.push(-v);
+        }
+        let w = u128::MAX / pk as u128;
+        for base in [w, w * 2, w / 2 * 3] {
+            for d in [0u128, 1, 2] {
+                let v = base + d;
+                if v <= M as u128 {
+                    out.push(v as i128);
+                    out.push(-(v as i128));
+                }
+            }
         }
     }
 }
